@@ -45,12 +45,23 @@ fn key_hash(i: usize) -> Ed25519KeyHash {
     b[1] = i as u8;
     Ed25519KeyHash::from_bytes(b).unwrap()
 }
+/// Byron owners 0 and 1 are Icarus-style addresses (1 byte of attributes); 2 is a Daedalus-style one
+/// with a derivation-path attribute (34 bytes of attributes: a two-byte CBOR head in the witness)
+fn byron_owner(i: u8) -> ByronAddress {
+    if i == 2 {
+        let r = crate::props::c11::RefByron { root: vec![0x3c; 28], payload: Some([vec![0x58, 0x1e], vec![0x77; 30]].concat()), magic: None, typ: 0 };
+        ByronAddress::from_bytes(crate::props::c11::byron_bytes(&r)).expect("harness Byron address")
+    } else {
+        crate::gen::byron_cached(i as usize)
+    }
+}
+
 fn address_of(o: &Owner) -> Address {
     match o {
         Owner::Key(k, 0) => EnterpriseAddress::new(1, &Credential::from_keyhash(&key_hash(*k))).to_address(),
         Owner::Key(k, 1) => BaseAddress::new(1, &Credential::from_keyhash(&key_hash(*k)), &Credential::from_keyhash(&key_hash(900 + *k))).to_address(),
         Owner::Key(k, _) => PointerAddress::new(1, &Credential::from_keyhash(&key_hash(*k)), &Pointer::new_pointer(&bn(2498243), &bn(27), &bn(3))).to_address(),
-        Owner::Byron(i) => crate::gen::byron_cached(*i as usize).to_address(),
+        Owner::Byron(i) => byron_owner(*i).to_address(),
     }
 }
 
@@ -75,6 +86,8 @@ fn kinds() -> Vec<Spec> {
         // an asset-rich UTxO with very little ADA (below the min-ADA of its own assets)
         Spec { owner: Owner::Key(6, 0), coin: 1_000_000, assets: vec![a(3, &[0xaa; 32], 1), a(3, &[0xab; 32], 1), a(4, &[0xac; 32], 1)] },
         Spec { owner: Owner::Key(0, 0), coin: 1 << 40, assets: vec![] },
+        // a Daedalus-style Byron owner (long attributes)
+        Spec { owner: Owner::Byron(2), coin: 2_600_000, assets: vec![] },
         // a value that holds an asset with quantity 0 (nothing in ledger terms)
         Spec { owner: Owner::Key(3, 1), coin: 3_000_000, assets: vec![a(0, b"z", 0), a(2, b"y", 9)] },
     ]
@@ -206,7 +219,7 @@ fn judge(ctx: &mut Ctx, specs: &[Spec], tgt: &Address, p: &Params, res: Result<R
                             keys.insert(key_hash(*k).to_bytes());
                         }
                         Owner::Byron(i) => {
-                            let a = crate::gen::byron_cached(*i as usize);
+                            let a = byron_owner(*i);
                             byron.insert(a.to_bytes(), a.attributes());
                         }
                     }
@@ -466,7 +479,7 @@ fn sc_limit_sweep(ns: Vec<usize>) -> impl Fn(&mut Ctx) + Sync {
             ctx.hit("limit-sweep:value-size");
         } else {
             let keys: BTreeSet<Vec<u8>> = specs.iter().filter_map(|s| if let Owner::Key(k, _) = &s.owner { Some(key_hash(*k).to_bytes()) } else { None }).collect();
-            let boots: BTreeMap<Vec<u8>, Vec<u8>> = specs.iter().filter_map(|s| if let Owner::Byron(i) = &s.owner { let a = crate::gen::byron_cached(*i as usize); Some((a.to_bytes(), a.attributes())) } else { None }).collect();
+            let boots: BTreeMap<Vec<u8>, Vec<u8>> = specs.iter().filter_map(|s| if let Owner::Byron(i) = &s.owner { let a = byron_owner(*i); Some((a.to_bytes(), a.attributes())) } else { None }).collect();
             let signed = ledger::signed_bytes(&t, keys.len(), &boots.values().cloned().collect::<Vec<_>>()).len() as u32;
             p2.max_tx_size = signed - d;
             p2.max_value_size = 1 << 20;
@@ -507,7 +520,7 @@ pub fn scenario(name: &str, tier: Tier) -> Option<BoxedScenario> {
 pub fn run(tier: Tier, seed: u64) -> i32 {
     let mut rep = Report::new(P, tier, seed);
     let n = if tier.thorough() { 5 } else { 4 };
-    rep.rule = format!("sequences: every sequence of <= {} UTxOs over 15 kinds (pure ADA 0.9 / 1.2 / 50 / 300 / 4000 / 2^40 lovelace-scale, assets whose summed quantity crosses 255|256, 2^32 and near-2^63 quantities, 0 / 1 / 32-byte names, 1..3 policies, asset-rich with little ADA, a zero-quantity asset, two Byron owners, one key behind enterprise / base / pointer addresses) x 8 parameter configurations (mainnet; max_tx_size 420; max_value_size 90; zero fee; coins_per_byte 1; 300/60; fee 1000/2000000; coins_per_byte 43100 with max_value_size 150) x 3 target addresses (base, Byron, script enterprise) x 2 hash-container seeds. families: 8 families (one key; distinct keys; distinct names under one policy; distinct policies; one shared asset; Byron/key mix; a dozen shared assets whose summed quantities cross 2^16 / 2^32 while each holding does not) x n in the listed counts x 8 configurations x 2 seeds. sweep: an asset-carrying UTxO holding 1 ADA (4 kinds) + one pure-ADA UTxO swept from 0.15 ADA in 1000-lovelace steps + 0..2 small pure-ADA UTxOs x 8 configurations. limit_sweep: 7 families x n in 1..40, 60, 141 (thorough also 100, 254..257) x short / 32-byte names x (max_value_size = largest real value size - d | max_tx_size = real signed size - d) for d in 0..4. Oracle on the re-parsed transactions: inputs are supplied UTxOs, each spent exactly once over the batch, every output to the target, inputs == outputs + fee in lovelace and every asset, fee >= a*|signed tx| + b with one key witness per distinct payment key and one bootstrap witness per Byron address, |signed tx| <= max_tx_size, |value| <= max_value_size, coin >= coins_per_byte*(160+|output|), no zero quantities.", n);
+    rep.rule = format!("sequences: every sequence of <= {} UTxOs over 16 kinds (pure ADA 0.9 / 1.2 / 50 / 300 / 4000 / 2^40 lovelace-scale, assets whose summed quantity crosses 255|256, 2^32 and near-2^63 quantities, 0 / 1 / 32-byte names, 1..3 policies, asset-rich with little ADA, a zero-quantity asset, two Icarus-style Byron owners and a Daedalus-style one, one key behind enterprise / base / pointer addresses) x 8 parameter configurations (mainnet; max_tx_size 420; max_value_size 90; zero fee; coins_per_byte 1; 300/60; fee 1000/2000000; coins_per_byte 43100 with max_value_size 150) x 3 target addresses (base, Byron, script enterprise) x 2 hash-container seeds. families: 8 families (one key; distinct keys; distinct names under one policy; distinct policies; one shared asset; Byron/key mix; a dozen shared assets whose summed quantities cross 2^16 / 2^32 while each holding does not) x n in the listed counts x 8 configurations x 2 seeds. sweep: an asset-carrying UTxO holding 1 ADA (4 kinds) + one pure-ADA UTxO swept from 0.15 ADA in 1000-lovelace steps + 0..2 small pure-ADA UTxOs x 8 configurations. limit_sweep: 7 families x n in 1..40, 60, 141 (thorough also 100, 254..257) x short / 32-byte names x (max_value_size = largest real value size - d | max_tx_size = real signed size - d) for d in 0..4. Oracle on the re-parsed transactions: inputs are supplied UTxOs, each spent exactly once over the batch, every output to the target, inputs == outputs + fee in lovelace and every asset, fee >= a*|signed tx| + b with one key witness per distinct payment key and one bootstrap witness per Byron address, |signed tx| <= max_tx_size, |value| <= max_value_size, coin >= coins_per_byte*(160+|output|), no zero quantities.", n);
     rep.assume("a refusal (Err) is not judged: the property is conditional on success");
     rep.assume("the signed size is computed by the harness (ledger::signed_bytes) from the emitted body plus real-size witnesses, not from the mock witnesses the library attaches");
     rep.trusted_base = vec!["harness/src/ledger.rs (parse_tx, min_fee, signed_bytes)".into(), "notes/ledger_rules.md §1-§3".into()];
